@@ -13,7 +13,6 @@ import (
 	"fmt"
 	"io/ioutil"
 	"log"
-	"net"
 	"os"
 	"sync"
 	"testing"
@@ -44,8 +43,8 @@ type tResult struct {
 	Infra   string   `json:"infra,omitempty"`
 }
 
-func tServer(port int) (*natsd.Server, error) {
-	s, err := natsd.NewServer(&natsd.Options{Host: "127.0.0.1", Port: port, NoLog: true, NoSigs: true})
+func tServer(host string, port int) (*natsd.Server, error) {
+	s, err := natsd.NewServer(&natsd.Options{Host: host, Port: port, NoLog: true, NoSigs: true})
 	if err != nil {
 		return nil, err
 	}
@@ -58,20 +57,18 @@ func tServer(port int) (*natsd.Server, error) {
 
 func tRun(sc tScript) (res tResult) {
 	res.ID = sc.ID
-	l, err := net.Listen("tcp", "127.0.0.1:0")
+	host, port, err := pFreeAddr() // (an address of its own: see there)
 	if err != nil {
 		res.Infra = err.Error()
 		return
 	}
-	port := l.Addr().(*net.TCPAddr).Port
-	l.Close()
-	srv, err := tServer(port)
+	srv, err := tServer(host, port)
 	if err != nil {
 		res.Infra = err.Error()
 		return
 	}
 	defer func() { srv.Shutdown() }()
-	url := fmt.Sprintf("nats://127.0.0.1:%d", port)
+	url := fmt.Sprintf("nats://%s:%d", host, port)
 	// the sink: a subscriber that comes back quickly after an outage
 	var mu sync.Mutex
 	var got [][]byte
@@ -109,7 +106,7 @@ func tRun(sc tScript) (res tResult) {
 			srv.Shutdown()
 			res.Events = append(res.Events, tEvent{Ev: "down"})
 			time.Sleep(20 * time.Millisecond)
-			if srv, err = tServer(port); err != nil {
+			if srv, err = tServer(host, port); err != nil {
 				res.Infra = err.Error()
 				return
 			}
